@@ -3,7 +3,7 @@
 (after generators changed) and report any seed that is no longer detected."""
 import glob, json, os, subprocess, sys
 lost = []
-for d in sorted(glob.glob('/verif/seeded/C*-m*/')):
+for d in sorted(glob.glob('/verif/seeded/C*-*m[0-9]*/')):
     name = os.path.basename(d.rstrip('/'))
     m = json.load(open(d + 'meta.json'))
     if m.get('superseded'):
